@@ -59,7 +59,8 @@ let case (line : string) : string =
              Buffer.add_string buf (Printf.sprintf "o%s,%s," (string_of_z a) (string_of_z r));
              List.iter (fun (((x, y), z), w) -> Buffer.add_string buf (bit x ^ bit y ^ bit z ^ bit w ^ ",")) fl
          | VBt t -> Buffer.add_string buf ("b" ^ string_of_z t)
-         | VRunStart m -> Buffer.add_string buf (Printf.sprintf "g%d" (int_of_nat m))
+         | VRunStart (m, a) -> Buffer.add_string buf (Printf.sprintf "g%d,%s" (int_of_nat m) (bit a))
+         | VStopReq -> Buffer.add_string buf "x"
          | VRun r -> Buffer.add_string buf ("u" ^ bit r)
          | VLoopClose c ->
              Buffer.add_string buf ("z" ^ string_of_z c);
